@@ -185,6 +185,8 @@ def run(ch: Checker) -> None:
                      '(case-insensitive scan of the header names); update_body removes Content-Length and keeps the body decoded when chunked, else sets it to len(body)', 3)
     ch.rule('C15.4', 'ChunkParser.process: int(<size token>, 16) where the token excludes chunk extensions (split/partition on b";"), followed by a `< 0` range check', 1)
     ch.rule('C15.5', 'update_body: gzip.compress applied exactly under Content-Encoding == gzip; any other Content-Encoding header is deleted', 1)
+    ch.rule('C15.7', 'the chunk decoder inverts the encoder for every way the stream is cut: size line searched in held+new bytes; chunk data ADDED to what earlier pieces delivered; '
+                     'consumed prefix and remainder split at the same point; no unchecked fixed-width skip (shared with C03.1/3/4)', 3)
     ch.rule('C15.6', 'separators agree: _process_header splits on the first COLON and strips; build_http_header joins with COLON + WHITESPACE; '
                      'request line split(WHITESPACE, 2) / join(WHITESPACE)', 3)
 
@@ -203,6 +205,8 @@ def run(ch: Checker) -> None:
 
     # C15.4
     size_token_check(ch, 'C15.4')
+    from .c03 import chunk_decoder_checks
+    chunk_decoder_checks(ch, 'C15.7', 'C15.7', 'C15.7')
 
     # C15.5 / C15.3 update_body
     ub = prog.own_method('HttpParser', 'update_body')
